@@ -12,7 +12,7 @@ import sys
 sys.path.insert(0, os.path.dirname(os.path.dirname(os.path.abspath(__file__))))
 import vlib
 from vlib import dbfile
-from gen import dbgen, headers
+from gen import dbgen, headers, collide
 
 OPTSETS = [['-c', '-fnames'], ['-c', '-fnames', '-promiscuous'], ['-c', '-fnames', '-string'], ['-python', '-fnames'],
            ['-c', '-python', '-fnames'], ['-c', '-fnames', '-unique-names', '-string', '-promiscuous'],
@@ -67,7 +67,7 @@ def main():
         opts = OPTSETS[i % len(OPTSETS)]
         dbp = os.path.join(wd, 'a%d.in' % i)
         ocp = os.path.join(wd, 'a%d.cxx' % i)
-        p = vlib.sh([b['interrogate'], '-oc', ocp, '-od', dbp, '-module', 'm', '-library', 'lib%d' % i] + opts + ['a%d.h' % i], cwd=wd)
+        p = vlib.sh([b['interrogate'], '-DCPPPARSER', '-oc', ocp, '-od', dbp, '-module', 'm', '-library', 'lib%d' % i] + opts + ['a%d.h' % i], cwd=wd)
         ck.count()
         ck.dist('real:' + ' '.join(opts))
         if p.returncode != 0:
@@ -130,6 +130,45 @@ def main():
                 ck.nontrivial('sig%d' % i)
         if i < 2:
             ck.sample({'opts': opts, 'wrappers': len(d['wrappers']), 'types': len(d['types']), 'check': res})
+
+    # ---------- stream A2: libraries whose signature hashes collide (names must stay distinct) -------
+    groups = collide.birthday(rng, budget=ck.scale(20000, 60000), want=ck.scale(3, 12))
+    for gi in range(ck.scale(4, 20)):
+        methods = []
+        for g in groups[gi % max(1, len(groups)):][:2]:
+            methods += g
+        k = rng.choice([1, 2, 3, 4])
+        methods += [(n_, ['int'], False) for n_ in collide.swap_variants(rng, 'Node', k)]
+        rng.shuffle(methods)
+        src = collide.header('Node', methods)
+        hp = os.path.join(wd, 'col%d.h' % gi)
+        open(hp, 'w').write(src)
+        for opts in (['-c', '-fnames', '-unique-names'], ['-python', '-fnames'], ['-c', '-python', '-fnames']):
+            dbp = os.path.join(wd, 'col%d.in' % gi)
+            ocp = os.path.join(wd, 'col%d.cxx' % gi)
+            p = vlib.sh([b['interrogate'], '-DCPPPARSER', '-oc', ocp, '-od', dbp, '-module', 'm', '-library', 'l'] + opts + ['col%d.h' % gi], cwd=wd)
+            ck.count()
+            ck.dist('collisions:' + ' '.join(opts))
+            replay = {'kind': 'spec', 'header': src, 'opts': opts, 'cmd': 'interrogate -DCPPPARSER -od h.in -oc h.cxx -module m -library l %s h.h' % ' '.join(opts)}
+            if p.returncode != 0:
+                ck.violation('corr_C11_run', 'interrogate failed on a collision header', dict(replay, kind='correspondence', output=p.stdout[-600:]), nofail=True)
+                continue
+            d = dbfile.load(dbp, b['src'])
+            names = [w['name'] for w in d['wrappers'].values() if w['name']]
+            un = [w['unique_name'] for w in d['wrappers'].values() if w['unique_name']]
+            dn = sorted(set(x for x in names if names.count(x) > 1))
+            du = sorted(set(x for x in un if un.count(x) > 1))
+            if dn:
+                ck.spec_failure('wrapper-names', 'wrappers share a name when signature hashes collide: %s' % dn[:3], replay)
+            elif du:
+                ck.spec_failure('unique-names', 'wrappers share a unique name when signature hashes collide: %s' % du[:3], replay)
+            else:
+                code = open(ocp).read()
+                missing = [x for x in names if not re.search(r'\b%s\s*\(' % re.escape(x), code)]
+                if missing:
+                    ck.spec_failure('undefined-wrapper', 'wrapper %s listed in the database but not defined in the code' % missing[0], replay)
+                else:
+                    ck.nontrivial('col%d%s' % (gi, opts))
 
     # ---------- stream B: remap of arbitrary numberings vs libinterrogatedb -------------------------
     nB = ck.scale(120, 2500)
